@@ -387,6 +387,16 @@ pub fn run_c18(ctx: &Ctx) -> i32 {
         names.extend(next.iter().cloned());
         frontier = next;
     }
+    // names that are themselves well-formed addresses of the codecs under test (a name is a name:
+    // it is hashed like any other)
+    for c in &cs {
+        for bytes in [Sha256::digest(b"a").to_vec(), vec![7u8; 5]] {
+            let n = ref_encode(c.prefix, &bytes, c.variant);
+            if !names.contains(&n) {
+                names.push(n);
+            }
+        }
+    }
     {
         let mut acc = Acc { evals: 0, outcomes: vec![] };
         let mut made: BTreeMap<String, (String, String)> = BTreeMap::new();
